@@ -289,8 +289,7 @@ def symbolic_step(ex, op, ka, kb, rep, drv, stats):
     else:
         arg, bnames = sym_map('b', kb, base, with_val=(op != 'remove_ranges'))
         argm = read_map(arg)
-    ex.solver.reset()
-    ex.solver.set('timeout', 60000)
+    ex.reset_solver(60000)
     ex.solver.add(*base)
     pre = read_map(amap)
     t0 = time.time()
@@ -415,7 +414,7 @@ def contains_check(ex, rep, stats):
     """Range::contains(c) == start <= c <= end for all ranges and chars (single path, one query)"""
     f = ex.prog.find('Range', 'contains')
     s, e, c = z3.Int('r_s'), z3.Int('r_e'), z3.Int('ch')
-    ex.solver.reset()
+    ex.reset_solver()
     ex.solver.add(c >= 0, c <= MAXCP, s >= 0, s < 2**32, e >= 0, e < 2**32)
     st = State()
     st.root()['r'] = A((S(32, s), S(32, e), UNIT))
